@@ -18,6 +18,10 @@ type GenSpec struct {
 	// loops whose bodies carry break/continue/return inside every kind of carrier construct: the
 	// population the transformer's loop-control guard is about).
 	Focus string `json:"focus,omitempty"`
+	// Data: the data family (gen_obj.go) is switched on: object values, field names of every lexical
+	// class and all positions in which the printed tree carries a type. When false the generator
+	// draws exactly the random numbers it drew before the family existed.
+	Data bool `json:"data,omitempty"`
 }
 
 // feat says which constructs outside the currently reliable fragment may be generated.
@@ -119,6 +123,7 @@ type gv struct {
 	fbase bool   // float usable as a factor (|x| < 2^21, multiple of 1/4), never assigned
 	ro    bool   // never assign (globals, params, loop variables)
 	n     int    // list length
+	sh    *shape // t == "obj"
 }
 
 type gfn struct {
@@ -145,6 +150,10 @@ type gen struct {
 	capPool []string
 	budget  int
 	noExit  int // > 0: inside a value-producing block (no break/continue/return out of expression context)
+	// the data family (gen_obj.go)
+	data      bool
+	shapes    []*shape
+	constOnly int // > 0: only literals (initialisers of globals)
 }
 
 func (g *gen) emit(format string, a ...any) {
@@ -231,13 +240,25 @@ func (g *gen) nnExpr(d int) ex {
 }
 
 func (g *gen) intExpr(d int, pure bool) ex {
+	if g.constOnly > 0 {
+		return g.intLit()
+	}
 	if d <= 0 {
+		if g.data && g.r.Chance(1, 4) {
+			if e, ok := g.fieldRead("int"); ok {
+				return e
+			}
+		}
 		if v := g.pickVar(func(v *gv) bool { return v.t == "int" }); v != nil && g.r.Chance(3, 5) {
 			return ex{s: v.name, p: pAtom}
 		}
 		return g.intLit()
 	}
-	switch g.r.Intn(19) {
+	nk := 19
+	if g.data {
+		nk = 22
+	}
+	switch g.r.Intn(nk) {
 	case 0, 1: // a + b (operands are reordered by the transformer: pure)
 		l, r := g.intExpr(d-1, true), g.intExpr(d-1, true)
 		return g.addSub("+", l, r)
@@ -299,6 +320,14 @@ func (g *gen) intExpr(d int, pure bool) ex {
 		return grp(ex{s: "{ let t = " + a.s + "; t + 1 }", p: pAtom})
 	case 18:
 		return grp(g.intExpr(d-1, pure))
+	case 19, 20: // a field of an object
+		if e, ok := g.fieldRead("int"); ok {
+			return e
+		}
+	case 21:
+		if v := g.pickVar(func(v *gv) bool { return v.t == "obj" }); v != nil {
+			return ex{s: v.name + ".keys().len()", p: pAtom}
+		}
 	}
 	return g.intExpr(d-1, pure)
 }
@@ -379,7 +408,15 @@ func (g *gen) floatBase(d int) fex {
 // floatExpr: all float arithmetic stays exact (multiples of 2^-6 below 2^46), so that the
 // reassociation a reordering rewrite may cause cannot change a result.
 func (g *gen) floatExpr(d int, pure bool) fex {
+	if g.constOnly > 0 {
+		return g.floatLit()
+	}
 	if d <= 0 {
+		if g.data && g.r.Chance(1, 4) {
+			if e, ok := g.fieldRead("float"); ok {
+				return fex{e, false}
+			}
+		}
 		if v := g.pickVar(func(v *gv) bool { return v.t == "float" }); v != nil && g.r.Chance(1, 2) {
 			return fex{ex{s: v.name, p: pAtom}, v.fbase}
 		}
@@ -407,6 +444,18 @@ func (g *gen) floatExpr(d int, pure bool) fex {
 
 func (g *gen) strExpr(d int) ex {
 	words := []string{"a", "bc", "xyz", "hello", "w w", "Q", "k9"}
+	if g.data {
+		// text that the printer has to escape (written here the way the source spells it), non-ASCII, empty
+		words = append(words, `q\"t`, `tab\tx`, `two\nl`, `b\\s`, "ä", "")
+	}
+	if g.constOnly > 0 {
+		return ex{s: `"` + words[g.r.Intn(len(words))] + `"`, p: pAtom}
+	}
+	if g.data && g.r.Chance(1, 5) {
+		if e, ok := g.fieldRead("str"); ok {
+			return e
+		}
+	}
 	if d > 0 && g.r.Chance(1, 3) {
 		return ex{s: g.strExpr(d-1).at(pAdd) + " + " + g.strExpr(d-1).at(pMul), p: pAdd}
 	}
@@ -417,6 +466,14 @@ func (g *gen) strExpr(d int) ex {
 }
 
 func (g *gen) boolExpr(d int, pure bool) ex {
+	if g.constOnly > 0 {
+		return ex{s: pick2(g.r, "true", "false"), p: pAtom}
+	}
+	if g.data && g.r.Chance(1, 5) {
+		if e, ok := g.fieldRead("bool"); ok {
+			return e
+		}
+	}
 	if d <= 0 {
 		if v := g.pickVar(func(v *gv) bool { return v.t == "bool" }); v != nil && g.r.Bool() {
 			return ex{s: v.name, p: pAtom}
@@ -490,6 +547,9 @@ func (g *gen) exprOf(t string, d int, pure bool) ex {
 	case "bool":
 		return g.boolExpr(d, pure)
 	default:
+		if sh := g.shapeOf(t); sh != nil {
+			return g.objExpr(sh, d, pure)
+		}
 		return g.strExpr(d)
 	}
 }
@@ -844,7 +904,22 @@ func (g *gen) exitInValue(d int, leaf string) {
 	open, close := "", ""
 	val := fmt.Sprint(1 + g.r.Intn(9))
 	after := ""
-	switch g.r.Intn(10) {
+	nk := 10
+	if g.data {
+		nk = 14
+	}
+	switch g.r.Intn(nk) {
+	case 10, 11, 12, 13: // the value of an object field (the name is of any lexical class)
+		sh := g.newShape(0)
+		k := g.r.Intn(len(sh.fields))
+		var fs []string
+		for i, f := range sh.fields {
+			if i == k {
+				break
+			}
+			fs = append(fs, g.keySrc(f)+": "+g.fieldValue(f, 1, true)+", ")
+		}
+		open, close = `println("fld", new { `+strings.Join(fs, "")+g.keySrc(sh.fields[k])+": {", "} });"
 	case 0:
 		open, close = `println("arg", {`, `});`
 	case 1:
@@ -900,6 +975,10 @@ func (g *gen) stmt(d int) {
 		} else {
 			g.assignStmt(1)
 		}
+		return
+	}
+	if g.data && g.r.Chance(1, 4) {
+		g.objStmt(d)
 		return
 	}
 	k := g.r.Intn(20)
@@ -1048,6 +1127,13 @@ func (g *gen) function(idx int) {
 		ps = append(ps, name+": "+t)
 		g.declare(&gv{name: name, t: t, ro: true})
 	}
+	if g.data && g.r.Chance(1, 3) {
+		sh := g.anyShape()
+		f.params = append(f.params, objT(sh))
+		name := fmt.Sprintf("p%d_o", idx)
+		ps = append(ps, name+": "+g.typeText(sh))
+		g.declare(&gv{name: name, t: "obj", sh: sh, ro: g.r.Bool()})
+	}
 	sig := fmt.Sprintf("fn %s(%s)", f.name, strings.Join(ps, ", "))
 	if ret != "" {
 		sig += " -> " + ret
@@ -1106,7 +1192,7 @@ func (g *gen) function(idx int) {
 // Source generates the program text.
 func (s *GenSpec) Source() string {
 	f, force := features(s.Mode)
-	g := &gen{r: fw.NewRng(s.Seed), f: f, force: force, focus: s.Focus, ret: "-", budget: 4 * s.Size}
+	g := &gen{r: fw.NewRng(s.Seed), f: f, force: force, focus: s.Focus, ret: "-", budget: 4 * s.Size, data: s.Data}
 	if f.identCapture {
 		g.capPool = []string{"mul_count", "count_once", "_i", "lhs_init", "mul_res"}
 		// shuffle deterministically
@@ -1120,6 +1206,9 @@ func (s *GenSpec) Source() string {
 	if useTrigger {
 		g.emit("import trigger minute from triggers;")
 		g.emit("")
+	}
+	if g.data {
+		g.objPrelude()
 	}
 	// globals: constant initialisers only (the analyzer demands it); they are shuffled
 	ng := g.r.Intn(4)
@@ -1164,6 +1253,9 @@ func (s *GenSpec) Source() string {
 		g.emit(`    println("minute", elapsed);`)
 		g.emit("}")
 		g.emit("")
+	}
+	if g.data {
+		g.objFunctions()
 	}
 	nf := 1 + g.r.Intn(3)
 	for i := 0; i < nf; i++ {
@@ -1239,10 +1331,10 @@ func (g *gen) forced() {
 
 // genCases builds the generated part of the workload.
 func genCases(tier string, seed uint64) []fw.Case {
-	nMain, nFocus, nPoison, nSeeds := 260, 40, 24, 8
+	nMain, nFocus, nData, nPoison, nSeeds := 260, 40, 70, 24, 8
 	passes := []int{1, 2, 3}
 	if tier == "thorough" {
-		nMain, nFocus, nPoison, nSeeds = 1500, 240, 60, 24
+		nMain, nFocus, nData, nPoison, nSeeds = 1500, 240, 300, 60, 24
 		passes = []int{1, 2, 3, 5}
 	}
 	r := fw.NewRng(seed ^ 0xC20)
@@ -1250,7 +1342,10 @@ func genCases(tier string, seed uint64) []fw.Case {
 	mk := func(id, kind, mode, focus string, wantTag string) {
 		for try := 0; try < 50; try++ {
 			spec := GenSpec{Seed: r.Next(), Size: 5 + r.Intn(12), Mode: mode, Focus: focus}
-			if focus != "" {
+			if focus == "data" {
+				spec.Focus, spec.Data = "", true
+				spec.Size = 4 + r.Intn(9)
+			} else if focus != "" {
 				spec.Size = 3 + r.Intn(6)
 			}
 			src := spec.Source()
@@ -1307,6 +1402,13 @@ func genCases(tier string, seed uint64) []fw.Case {
 		for i := 0; i < nPoison; i++ {
 			mk(fmt.Sprintf("c20-%s-%d", t, i), "gen-poisoned", "poison:"+t, "", t)
 		}
+	}
+	// the data population: the general mix plus object values, field names of every lexical class and
+	// types in every printed position (gen_obj.go). Generated after the older populations, from its own
+	// random stream, so that those stay what they were.
+	r = fw.NewRng(seed ^ 0xDA7A20)
+	for i := 0; i < nData; i++ {
+		mk(fmt.Sprintf("c20-data-%d", i), "gen", "main", "data", "")
 	}
 	return cases
 }
